@@ -67,12 +67,12 @@ func sortedKeys[V any](m map[string]V) []string {
 
 // agreementOracle is C07: at a quiescent point pool and cloud agree.
 func (w *World) agreementOracle() {
-	// quiescent: nothing in flight at the factory seam for a while and two consecutive
-	// snapshots (30 fake seconds apart) of the pool are identical
+	// quiescent: nothing in flight at the factory seam and two consecutive snapshots of the
+	// pool, five fake minutes apart (longer than a balancer period), are identical
 	var tr map[string]*trackedENI
 	stable := false
 	prev := ""
-	for i := 0; i < 40; i++ {
+	for i := 0; i < 10; i++ {
 		tr = w.tracked()
 		cur := w.describe(tr)
 		if w.cloud.inflight == 0 && cur == prev {
@@ -80,11 +80,11 @@ func (w *World) agreementOracle() {
 			break
 		}
 		prev = cur
-		simrt.Sleep(30 * time.Second)
+		simrt.Sleep(300 * time.Second)
 	}
 	w.run.Eval()
 	if !stable {
-		w.run.Violate("C07", "liveness", "pool-never-quiescent", "pool still changing %d fake seconds after faults stopped: %s", w.sc.SettleS+40*30, prev)
+		w.run.Violate("C07", "liveness", "pool-never-quiescent", "pool still changing %d fake seconds after faults stopped: %s", w.sc.SettleS+10*300, prev)
 		return
 	}
 	w.run.Probe("settle-quiescent")
